@@ -148,18 +148,18 @@ Theorem c10_key_match : forall mk ks, key_match (MStruct mk) ks = true ->
 Proof. exact key_match_spec. Qed.
 Print Assumptions c10_key_match.
 
-(* a slice model value whose LAST element is keyed restricts the update to the elements' non-zero keys.
-   PARTIAL: when the last element is key-less the code adds no key restriction at all (see
-   c10_slice_model_last_keyless_refuted) *)
-Theorem c10_slice_model_partial : forall l ks, key_match (MSlice l) ks = true -> last l 0 <> 0 ->
+(* a slice model value with a keyed element, in ANY position, restricts the update to the elements'
+   non-zero keys.  Total since /repo commit 049875c. *)
+Theorem c10_slice_model : forall l ks, key_match (MSlice l) ks = true -> (exists k, In k l /\ k <> 0) ->
   In (hd 0 ks) l /\ hd 0 ks <> 0.
 Proof. exact slice_match_spec. Qed.
-Print Assumptions c10_slice_model_partial.
+Print Assumptions c10_slice_model.
 
-Theorem c10_slice_model_last_keyless_refuted : exists l ks,
-  key_match (MSlice l) ks = true /\ ~ In (hd 0 ks) l.
-Proof. exact slice_match_refuted. Qed.
-Print Assumptions c10_slice_model_last_keyless_refuted.
+(* RECORD of the fixed finding slice-model-last-keyless: the scan as it was before 049875c
+   ([slice_match_old], not evaluated by the checker) let Model(&[]U{{ID:2},{}}) reach a row with key 1 *)
+Theorem c10_slice_model_old_refuted : exists l ks, slice_match_old l ks = true /\ ~ In (hd 0 ks) l.
+Proof. exact slice_match_old_refuted. Qed.
+Print Assumptions c10_slice_model_old_refuted.
 
 Theorem c10_create_cells : forall s table, wf s -> forall o selects omits ps stored mk wh x,
   (o = OCreate \/ o = OCreateBatch) ->
